@@ -7,6 +7,7 @@ CONSTANTS
   MaxSlot = 9
   MaxOps = 2
   MaxLog = 1
+  RC = FALSE
   KeepHist = FALSE
   GenLen = 0
   Mut = {}
